@@ -93,15 +93,19 @@ def rst_post(text, width, indent, nl, source_format, result):
             _viol("rst", "ends-with-double-quote", text=text, result=result)
         if '"""' in result:
             _viol("rst", "contains-triple-quote", text=text, result=result)
-        # (a trailing backslash only matters where the closing quotes follow directly: judged by the differential monitor)
+        if result.endswith("\\"):
+            _viol("rst", "ends-with-backslash", text=text, result=result)
         if plain:
             got = words(result)
             want = words(text)
             if got != want and not (got[:-1] == want[:-1] and got and want and got[-1] == want[-1] + "."):
                 _viol("rst", "words-differ", text=text, width=width, indent=indent, result=result, has_tab="\t" in text)
-            for ln, line in enumerate(result.split("\n")):
-                # rst() wraps to width-indent with offset indent+3 and re-indents continuation lines
-                if len(line) > width and len(words(line)) > 1:
+            rlines = result.split("\n")
+            for ln, line in enumerate(rlines):
+                # rst() wraps to width-indent with offset indent+3 and re-indents continuation lines; the period it appends
+                # after a trailing quote/backslash is a docstring guard, not wrapping: it may exceed the width by one
+                slack = 1 if (ln == len(rlines) - 1 and line.endswith(('".', "\\."))) else 0
+                if len(line) > width + slack and len(words(line)) > 1:
                     _viol("rst", "line-too-long", text=text, width=width, indent=indent, line=line, line_no=ln, has_tab="\t" in text)
                     break
     except Exception as e:  # noqa
